@@ -121,3 +121,44 @@ func VerifC05_Chain() {
 	}
 	verifReach("end")
 }
+
+// C05 (several dependencies): a dependent with two dependencies - one that is never scheduled
+// (disabled) and one that fails its condition - is skipped, whatever order the depends_on map is
+// visited in; so is its own dependent.
+func VerifC05_TwoDeps() {
+	w := vInit()
+	verifSymbolicMapOrderIn("waitIfNeeded")
+	verifSymbolicMapOrderIn("waitForDependencies")
+	verifSymbolicMapOrder(true)
+	cond := []string{types.ProcessConditionCompletedSuccessfully, types.ProcessConditionLogReady}[verifChooseK("condition", 2)]
+	verifShape("failing=" + cond)
+	bad := vConf("bad", nil)
+	if cond == types.ProcessConditionLogReady {
+		bad.ReadyLogLine = "ready"
+	}
+	ghost := vConf("ghost", nil)
+	ghost.Disabled = true
+	mid := vConf("mid", map[string]string{"ghost": types.ProcessConditionCompleted, "bad": cond})
+	leaf := vConf("leaf", map[string]string{"mid": types.ProcessConditionCompletedSuccessfully})
+	w.behav["bad"] = &vBehav{codes: []int{3}, lines: []string{"booting"}}
+	w.behav["mid"] = &vBehav{codes: []int{0}}
+	w.behav["leaf"] = &vBehav{codes: []int{0}}
+	w.onStart = func(name string, attempt int) {
+		if name == "mid" || name == "leaf" {
+			verifFail("dependent.launched")
+		}
+	}
+	r := vRunner(vProject(bad, ghost, mid, leaf), false)
+	_ = r.Run()
+	verifQuiesce()
+	for _, n := range []string{"mid", "leaf"} {
+		st, e := r.GetProcessState(n)
+		if e != nil {
+			verifFail("no.state")
+			continue
+		}
+		verifAssert("dependent.skipped", st.Status == types.ProcessStateSkipped)
+		verifAssert("dependent.exit.code.nonzero", st.ExitCode != 0)
+	}
+	verifReach("end")
+}
